@@ -479,3 +479,36 @@ def run(index, rep, tier):
                                   % (fi.qualname, norm(adv[0])[:60], t.stmt.lineno))
         rep.floor("R13.11", "token-driven reader loops", 8, nl)
         rep.floor("R13.11", "tokenizer advances inside them", 3, na)
+
+    # ---- R13.12 the streaming route refuses the offsets it cannot honour
+    with rep.section("R13.12"):
+        rep.rule("R13.12", "the streaming route refuses the offsets it cannot honour: TreeArray.read_from_files counts trees as they arrive, so a negative tree_offset ('the last n', which TreeList.get honours by slicing) is refused with an error before any tree is added - the counting comparison `count >= offset` would otherwise be true from the first tree on and silently read everything")
+        rf = index.function("dendropy.datamodel.treecollectionmodel.TreeArray.read_from_files")
+        g = cfg_of(rf)
+        offs = [norm(st.targets[0]) for st in walk_no_nested(rf.node) if isinstance(st, ast.Assign) and isinstance(st.value, ast.Call) and call_name(st.value) in ("pop", "get") and st.value.args and const_value(st.value.args[0], None) == "tree_offset"]
+        if len(offs) != 1:
+            raise AnalysisError("R13.12: TreeArray.read_from_files no longer takes tree_offset from its keywords")
+        off = offs[0]
+        adds = [n for n in g.nodes if any(call_name(c) == "add_tree" for c in node_calls(n))]
+        if not adds:
+            raise AnalysisError("R13.12: TreeArray.read_from_files no longer adds trees through add_tree")
+
+        def neg_allowed(s, l, d):
+            # the edge on which `offset < 0` holds (or `offset >= 0` fails) may only lead to a raise
+            if s.kind == "test" and isinstance(s.ast, ast.Compare) and len(s.ast.ops) == 1 and norm(s.ast.left) == off and const_value(s.ast.comparators[0], None) == 0:
+                op = s.ast.ops[0]
+                if isinstance(op, ast.Lt):
+                    return l == "t"
+                if isinstance(op, ast.GtE):
+                    return l == "f"
+                return True
+            return True
+        tests = [s for s in g.nodes if s.kind == "test" and isinstance(s.ast, ast.Compare) and len(s.ast.ops) == 1 and norm(s.ast.left) == off and const_value(s.ast.comparators[0], None) == 0 and isinstance(s.ast.ops[0], (ast.Lt, ast.GtE))]
+        ok = False
+        for s in tests:
+            neg = [d for l, d in s.succ if l == ("t" if isinstance(s.ast.ops[0], ast.Lt) else "f")]
+            reach = g.reach(neg, follow_exc=False)
+            if not any(a in reach for a in adds) and g.dominated_by(adds[0], lambda n, s=s: n is s):
+                ok = True
+        rep.check(ok, "R13.12", rf.qualname, "a negative tree_offset reaches the counting loop", fn_where(rf, adds[0].ast), "TreeArray.read_from_files refuses a negative tree_offset",
+                  "TreeArray.read_from_files adds a tree whenever `count >= %s` without having refused a negative offset: tree_offset=-2 means 'the last two trees' to TreeList.get / TreeList.read, but here the comparison holds from the first tree on, so the array silently holds ALL trees of the source while the list read with the same options holds two" % off)
